@@ -118,7 +118,9 @@ def parse_loops_file(path):
             fn = s.split()[1]
         elif s.startswith("@loop"):
             parts = s.split(None, 2)
-            cur = [fn, int(parts[1]), parts[2] if len(parts) > 2 else ".", []]
+            # ordinal "*": the unique loop of the function whose header matches the regex (functions whose inactive
+            # preprocessor branches hold further loops)
+            cur = [fn, -1 if parts[1] == "*" else int(parts[1]), parts[2] if len(parts) > 2 else ".", []]
         elif s.startswith("@end"):
             specs.append(tuple(cur))
             cur = None
@@ -136,6 +138,11 @@ def weave_text(src, specs, fname="<src>"):
         if body is None:
             raise Undecided("weave: function %s not found in %s" % (fn, fname))
         loops = loops_in(masked, body[0], body[1])
+        if ordinal < 0:
+            hits = [k for k, (kp, _ho, hc_) in enumerate(loops) if re.search(rx, re.sub(r"\s+", " ", src[kp:hc_ + 1]))]
+            if len(hits) != 1:
+                raise Undecided("weave: %d loops of %s match /%s/, wanted exactly one" % (len(hits), fn, rx))
+            ordinal = hits[0]
         if ordinal >= len(loops):
             raise Undecided("weave: %s has %d loops, wanted ordinal %d" % (fn, len(loops), ordinal))
         kpos, ho, hc = loops[ordinal]
@@ -186,6 +193,8 @@ def weave_text_anchors(src, specs):
     for fn, ordinal, rx, clauses in specs:
         body = find_function_body(masked, fn)
         loops = loops_in(masked, body[0], body[1])
+        if ordinal < 0:
+            ordinal = [k for k, (kp, _ho, hc_) in enumerate(loops) if re.search(rx, re.sub(r"\s+", " ", src[kp:hc_ + 1]))][0]
         res.append((fn, loops[ordinal][0], loops[ordinal][2], len(clauses) + 2))
     return res
 
